@@ -103,6 +103,8 @@ def parse_ace_standard(line: str) -> DStr:
     _items = h.re_find_t(regex, line)
     if not _items:
         return {}
+    if h.findall1(f"^ ({addr})(?: |$)", _items[3]):
+        return {}  # second address, not standard ACE
 
     items = [s.strip() for s in _items]
     data = dict(
